@@ -719,12 +719,21 @@ type nullGen struct {
 var nullGens = []nullGen{
 	{"no-null", func(r *rand.Rand, n int) []bool { return make([]bool, n) }},
 	{"all-null", func(r *rand.Rand, n int) []bool { return fillB(n, func(int) bool { return true }) }},
-	{"alternating", func(r *rand.Rand, n int) []bool { o := r.IntN(2); return fillB(n, func(i int) bool { return i%2 == o }) }},
+	{"alternating", func(r *rand.Rand, n int) []bool {
+		o := r.IntN(2)
+		return fillB(n, func(i int) bool { return i%2 == o })
+	}},
 	{"random-half", func(r *rand.Rand, n int) []bool { return fillB(n, func(int) bool { return r.IntN(2) == 0 }) }},
 	{"sparse-nulls", func(r *rand.Rand, n int) []bool { return fillB(n, func(int) bool { return r.IntN(20) == 0 }) }},
 	{"sparse-values", func(r *rand.Rand, n int) []bool { return fillB(n, func(int) bool { return r.IntN(20) != 0 }) }},
-	{"null-head", func(r *rand.Rand, n int) []bool { k := r.IntN(n + 1); return fillB(n, func(i int) bool { return i < k }) }},
-	{"null-tail", func(r *rand.Rand, n int) []bool { k := r.IntN(n + 1); return fillB(n, func(i int) bool { return i >= k }) }},
+	{"null-head", func(r *rand.Rand, n int) []bool {
+		k := r.IntN(n + 1)
+		return fillB(n, func(i int) bool { return i < k })
+	}},
+	{"null-tail", func(r *rand.Rand, n int) []bool {
+		k := r.IntN(n + 1)
+		return fillB(n, func(i int) bool { return i >= k })
+	}},
 	{"one-value", func(r *rand.Rand, n int) []bool {
 		k := 0
 		if n > 0 {
